@@ -1017,9 +1017,12 @@ Htagnewref(int32  file_id, /* IN: File ID the tag/refs are in */
     if ((tip_ptr = (tag_info **)tbbtdfind(file_rec->tag_tree, (void *)&base_tag, NULL)) == NULL)
         ret_value = 1;        /* The first available ref */
     else {                    /* found an existing tag */
+        int32 next_ref;       /* 65535 is a legal ref: test for failure before narrowing */
+
         tinfo_ptr = *tip_ptr; /* get the pointer to the tag info */
-        if ((ret_value = (uint16)bv_find_next_zero(tinfo_ptr->b)) == (uint16)FAIL)
+        if ((next_ref = bv_find_next_zero(tinfo_ptr->b)) == FAIL || next_ref > MAX_REF)
             HGOTO_ERROR(DFE_BVFIND, 0);
+        ret_value = (uint16)next_ref;
     }
 
 done:
